@@ -152,7 +152,13 @@ func ruleCode128Encoder(c *Ctx) {
 				pred := sh.Preds[ei]
 				edge := cAnd(n.ReachCond(sumL.F, sh.Succs[0], pred), n.EdgeCond(pred, sh))
 				for _, cs := range n.valueCases(sumL.F, sh.Succs[0], e, 0) {
-					upd = append(upd, valCase{cs.val, cAnd(edge, cs.cond)})
+					cc := cAnd(edge, cs.cond)
+					val := cs.val
+					// in the first iteration the running sum still has its initial value 0
+					if imp, _, _ := CondRelation(cc, MustRefCond("p + 1 == 0")); imp {
+						val = polyDropAtom(val, "sum")
+					}
+					upd = append(upd, valCase{val, cc})
 				}
 			}
 			checkCases(c, R4, "code128.EncodeWithColor/sum-update", sumP.Pos(), mergeCases(upd), []edgeSpec{{"v", "p + 1 == 0"}, {"sum + (p+1)*v", "p + 1 != 0"}})
@@ -316,4 +322,21 @@ func ruleCode128Encoder(c *Ctx) {
 		c.Check(R6, "code128.getCodeIndexList/"+table+"-branch", call.Pos(), imp, "emitted only in the "+table+" branch", rc.String())
 	}
 	c.Check(R6, "code128.getCodeIndexList/value-sites", fn.Pos(), seenSets["A"] && seenSets["B"] && seenSets["C"], "value emission in each of the three sets", fmt.Sprint(seenSets))
+}
+
+// polyDropAtom: p with atom := 0.
+func polyDropAtom(p Poly, atom string) Poly {
+	out := Poly{}
+	for m, c := range p {
+		drop := false
+		for _, f := range splitMono(m) {
+			if f == atom {
+				drop = true
+			}
+		}
+		if !drop {
+			out[m] = c
+		}
+	}
+	return out
 }
